@@ -90,7 +90,7 @@ class Delimited(Harness):
             for r in range(n):
                 w = skel["rows"][r][c]
                 cv = F.cell(x, r, c, w)
-                dot = (w // 2 if w >= 3 else None) if kind == "float" else None
+                dot = (w // 2 if w >= 3 else None) if kind == "float" else (F.list_spec(skel, r, c) if kind == "ilist" else None)
                 ref = F.ref_value(kind, cv, signed=(r, c) in signed, dot=dot)
                 got = col[r]
                 if isinstance(ref, list):
@@ -136,12 +136,59 @@ class Delimited(Harness):
             for r in range(n):
                 w = skel["rows"][r][c]
                 vals = [cx[f"c{r}_{c}_{j}"] for j in range(w)]
-                exp = F.py_value(kind, vals, signed=(r, c) in signed)
+                exp = F.py_value(kind, vals, signed=(r, c) in signed, dot=F.list_spec(skel, r, c) if kind == "ilist" else None)
                 got = cout["cols"][nm][r]
                 ok = (abs(float(got) - exp) <= 1e-9 * max(1, abs(exp))) if kind == "float" else (got == exp)
                 if not ok:
                     return f"file {text!r}: column {nm} of record {r} parsed as {got!r}, the text {bytes(vals).decode('latin1')!r} means {exp!r}"
         return None
+
+
+class MoreFormats(Delimited):
+    """the less common delimited formats: BED12 (list-valued columns), narrowPeak (float columns, signed summit), pairs,
+    GFF3 with comment lines between the records"""
+    name = "more_formats"
+    functions = ("Bed12Buffer / NarrowPeakBuffer / PairsBuffer / GFFBuffer", "DelimitedBuffer._get_field_by_number (List[int], float, "
+                 "Optional[int] parsers)", "str_to_int / str_to_float / split on list columns", "DelimitedBufferWithInernalComments."
+                 "_calculate_col_starts_and_ends")
+    bounds = {"quick": "BED12: 1-2 records, block lists of 1-3 elements of 1-2 digits, with and without the trailing comma that UCSC "
+                       "writes; narrowPeak: 1-2 records, floats d.d / dd.dd / d, summit with sign; pairs: 1-2 records with a '#' header; "
+                       "GFF3: 2-3 records with comment lines before, between and after them; LF/CRLF",
+              "thorough": "3 records, longer lists"}
+    assumptions = ("float columns compared in the exact-real model",)
+
+    def skeletons(self, tier, seed):
+        out = []
+        L = lambda *w, t=False: dict(widths=list(w), trailing=t)
+        # BED12: columns 10, 11 are lists
+        b12 = []
+        for lists in ([(L(2), L(1))], [(L(1, 2), L(1, 1)), (L(2), L(1))], [(L(1, 1, 2), L(1, 2, 1))],
+                      [(L(1, 2, t=True), L(1, 1, t=True))], [(L(2, t=True), L(1, t=True)), (L(1, 1, t=True), L(1, 2, t=True))]):
+            rows, spec = [], {}
+            for r, (a, b) in enumerate(lists):
+                rows.append([1 + r, 1, 2, 1, 1, 1, 1, 2, 1, 1, F.list_width(a), F.list_width(b)])
+                spec[f"{r}_10"], spec[f"{r}_11"] = a, b
+            b12.append(dict(fmt="bed12", rows=rows, lists=spec))
+        for sk in b12:
+            for crlf in (False, True):
+                out.append(dict(sk, crlf=crlf))
+        # narrowPeak
+        for rows in ([[1, 1, 2, 1, 1, 1, 3, 1, 3, 1]], [[2, 1, 1, 1, 2, 1, 1, 3, 5, 2], [1, 2, 2, 1, 1, 1, 3, 1, 1, 1]]):
+            out.append(dict(fmt="narrowpeak", rows=rows, crlf=False))
+            out.append(dict(fmt="narrowpeak", rows=rows, crlf=False, signed=[[r, 9] for r in range(len(rows))]))
+            out.append(dict(fmt="narrowpeak", rows=rows, crlf=True))
+        # pairs
+        for rows in ([[1, 1, 1, 1, 1, 1, 1]], [[2, 1, 3, 2, 1, 1, 1], [1, 2, 1, 1, 2, 1, 1]]):
+            out.append(dict(fmt="pairs", rows=rows, crlf=False, header=["## pairs format v1.0", "#columns: readID chr1 pos1 chr2 pos2 strand1 strand2"]))
+            out.append(dict(fmt="pairs", rows=rows, crlf=False))
+        # GFF3 with comment lines
+        g = [[1, 1, 1, 1, 2, 1, 1, 1, 3], [2, 2, 1, 2, 2, 1, 1, 1, 1], [1, 1, 2, 1, 1, 1, 1, 1, 2]]
+        for rows, comments in ((g[:2], {}), (g[:2], {"1": "#x"}), (g, {"1": "##sequence-region c 1 9", "2": "#y"}), (g[:2], {"0": "##gff-version 3"}),
+                               (g[:2], {"1": "#a\tb"})):
+            out.append(dict(fmt="gff", rows=rows, comments=comments, crlf=False))
+        if tier == "thorough":
+            out.append(dict(fmt="gff", rows=g, comments={"1": "#x", "2": "#y"}, crlf=True))
+        return out
 
 
 class Sequences(Harness):
@@ -398,4 +445,4 @@ class VCF(Harness):
         return None
 
 
-HARNESSES = [Delimited(), Sequences(), VCF()]
+HARNESSES = [Delimited(), MoreFormats(), Sequences(), VCF()]
